@@ -34,7 +34,9 @@ type PanicErrVal struct {
 	Inner error
 }
 
-func (p PanicErrVal) Error() string { return fmt.Sprintf("planned panic of %s#%d: %v", p.F, p.N, p.Inner) }
+func (p PanicErrVal) Error() string {
+	return fmt.Sprintf("planned panic of %s#%d: %v", p.F, p.N, p.Inner)
+}
 func (p PanicErrVal) Unwrap() error { return p.Inner }
 
 // innerDigErr is a genuine dig error (missing type) obtained from a throw-away container.
